@@ -5,6 +5,7 @@ mod driver;
 mod framework;
 mod lattice;
 mod skeleton;
+mod stream;
 mod props;
 mod util;
 
